@@ -52,6 +52,8 @@ const (
 	silentWindow = 35 * time.Millisecond
 	// "addev": how long the new handler's first replay callback waits for the concurrent event to be handed over
 	addEvWindow = 25 * time.Millisecond
+	// an operation of the API that has not returned after this long is reported as hung
+	hangLimit = 4 * time.Second
 )
 
 type resInfo struct {
@@ -735,17 +737,42 @@ func guarded(f func()) (msg string) {
 	return ""
 }
 
+// guardedT is guarded with a time limit: an operation of the API that does not return (a deadlock inside the code under
+// test) is reported like a panic of that operation -- the scenario cannot go on -- instead of hanging the harness.
+func guardedT(limit time.Duration, f func()) (msg string) {
+	done := make(chan string, 1)
+	var me interface{}
+	go func() {
+		defer func() {
+			if r := recover(); r != nil {
+				me = r
+				done <- "MACHINERY"
+			}
+		}()
+		done <- guarded(f)
+	}()
+	select {
+	case m := <-done:
+		if m == "MACHINERY" {
+			panic(me)
+		}
+		return m
+	case <-time.After(limit):
+		return "operation did not return within " + limit.String() + " (deadlock)"
+	}
+}
+
 func (d *drv) cleanup() {
 	for s := 1; s <= tNS; s++ {
 		sl := d.slots[s]
 		if sl.sub == nil {
 			continue
 		}
-		if m := guarded(func() { sl.sub.Informer().RemoveEventHandlers() }); m != "" {
+		if m := guardedT(hangLimit, func() { sl.sub.Informer().RemoveEventHandlers() }); m != "" {
 			fmt.Fprintf(os.Stderr, "cleanup of %s: RemoveEventHandlers panicked: %.200s\n", d.sc.ID, m)
 		}
 		if sl.open {
-			if m := guarded(func() { sl.sub.Close() }); m != "" {
+			if m := guardedT(hangLimit, func() { sl.sub.Close() }); m != "" {
 				fmt.Fprintf(os.Stderr, "cleanup of %s: Close panicked: %.200s\n", d.sc.ID, m)
 			}
 			sl.open = false
@@ -765,9 +792,9 @@ func runSeq(sc *scenario, out *lineWriter, timeout time.Duration) bool {
 		pmsg := ""
 		switch op.T {
 		case "sub", "add", "rem", "close", "subx":
-			pmsg = guarded(func() { d.execSlot(op) })
+			pmsg = guardedT(hangLimit, func() { d.execSlot(op) })
 		case "addev", "remev":
-			pmsg = guarded(func() { op.RV = d.execSlot(op) })
+			pmsg = guardedT(hangLimit, func() { op.RV = d.execSlot(op) })
 		case "oadd", "oupd", "odel":
 			op.RV = d.execObj(op)
 		default:
